@@ -18,10 +18,8 @@ CONFIGS_QUICK = ["dir"]
 
 def r5_roundtrip(ctx):
     """reflexivity of the comparators actually used (read off their extracted tables)"""
-    cond = C04.find_cond_fn(ctx)
-    lfs = C04.list_fns(ctx, cond)
-    summ = C04.loop_summaries(ctx, lfs, "C14.R5.loops")
-    for fn, s in sorted(summ.items()):
+    summ = getattr(ctx, "_c04_summ", {})      # the tag-list loop summaries computed by C04.r1_table (run just before)
+    for fn, s in sorted(summ.items(), key=lambda kv: str(kv[0])):
         tab = etagcmp.table(ctx, s["cmpfn"])
         strong_refl = tab[('"x"', '"x"')] == 1
         weak_refl = tab[('W/"x"', 'W/"x"')] == 1
